@@ -81,8 +81,25 @@ func parseFasta(b []byte) ([]outRec, error) {
 	return out, nil
 }
 
+// decorate writes a primer with the '#' marks of the pattern syntax (no error allowed at the marked
+// position): with an error budget of 0 the decorated primer means exactly the same as the plain one.
+func decorate(c *core.Ctx, primer string) string {
+	var sb strings.Builder
+	for i := 0; i < len(primer); i++ {
+		sb.WriteByte(primer[i])
+		if c.Rng.Intn(4) == 0 {
+			sb.WriteByte('#')
+		}
+	}
+	return sb.String()
+}
+
 func cliArgs(c *core.Ctx, cfg ref.PCRConfig, extra ...string) []string {
-	a := []string{"--forward", cfg.Forward, "--reverse", cfg.Reverse, "-e", strconv.Itoa(cfg.FwdErr), "-L", strconv.Itoa(cfg.MaxLen)}
+	fwd, rev := cfg.Forward, cfg.Reverse
+	if cfg.FwdErr == 0 && cfg.RevErr == 0 && c.Rng.Intn(2) == 0 {
+		fwd, rev = decorate(c, fwd), decorate(c, rev)
+	}
+	a := []string{"--forward", fwd, "--reverse", rev, "-e", strconv.Itoa(cfg.FwdErr), "-L", strconv.Itoa(cfg.MaxLen)}
 	if cfg.MinLen > 0 {
 		a = append(a, "-l", strconv.Itoa(cfg.MinLen))
 	}
@@ -135,6 +152,19 @@ func parallelArgs(c *core.Ctx) []string {
 
 func runE2E(c *core.Ctx) {
 	g := newGen(c, genOpts{cli: true, fewFlanks: true, nTemplates: 8 + c.Rng.Intn(25)})
+	// templates that are exactly (or nearly) one product: 0-2 flanking bases around forward site +
+	// barcode of the minimal length (or a little more) + reverse site
+	for k := 0; k < 3; k++ {
+		L := max(1, g.cfg.MinLen) + c.Rng.Intn(3)
+		if g.cfg.MaxLen > 0 && L > g.cfg.MaxLen {
+			continue
+		}
+		lowF, lowR := strings.ToLower(g.cfg.Forward), strings.ToLower(g.cfg.Reverse)
+		seq := string(gen.DNA(c.Rng, c.Rng.Intn(3))) + string(gen.PCRInstance(c.Rng, lowF, 0)) + string(gen.DNA(c.Rng, L)) +
+			ref.RevCompString(string(gen.PCRInstance(c.Rng, lowR, 0))) + string(gen.DNA(c.Rng, c.Rng.Intn(3)))
+		g.templates = append(g.templates, tmpl{ID: fmt.Sprintf("exactfit%d", k), Seq: seq})
+		g.plants = append(g.plants, nil)
+	}
 	in := filepath.Join(c.Dir, fmt.Sprintf("c11-e2e-%d.fasta", c.Idx))
 	defer os.Remove(in)
 	if err := writeFasta(in, g.templates, []int{0, 60, 70}[c.Rng.Intn(3)]); err != nil {
